@@ -631,6 +631,9 @@ struct Analysis {
     reach_info_vs_subdir: Vec<Vec<u8>>,
     /// ... a line whose pattern is of the form `lit**...`
     reach_dstar: Vec<Vec<u8>>,
+    /// ... a line that starts with a double quote which is never closed (git: the blank-delimited token is the pattern;
+    /// gitoxide: the line is dropped)
+    reach_bad_quote: Vec<Vec<u8>>,
 }
 
 fn analyse(spec: &Spec) -> Analysis {
@@ -644,8 +647,10 @@ fn analyse(spec: &Spec) -> Analysis {
         has_empty_name: bool,
         not_set: Vec<Vec<u8>>,
         dstar: bool,
+        bad_quote: bool,
     }
     let mut lines = Vec::new();
+    let mut defined_in_root_or_info: Vec<Vec<u8>> = Vec::new();
     for (loc, content) in &spec.attr_files {
         let content = content.strip_prefix(b"\xef\xbb\xbf").unwrap_or(content);
         for l in content.lines() {
@@ -654,6 +659,9 @@ fn analyse(spec: &Spec) -> Analysis {
             if let Some(name) = head.strip_prefix(b"[attr]") {
                 if macros_ok {
                     bodies.push((name.to_vec(), toks.iter().map(|t| t.0.clone()).collect()));
+                    if !matches!(loc, Loc::Global) {
+                        defined_in_root_or_info.push(name.to_vec());
+                    }
                 }
             }
             lines.push(Line {
@@ -663,6 +671,25 @@ fn analyse(spec: &Spec) -> Analysis {
                 has_empty_name: toks.iter().any(|t| t.0.is_empty()) || head == b"[attr]",
                 not_set: toks.iter().filter(|t| !t.1).map(|t| t.0.clone()).collect(),
                 dstar: doublestar_after_literal_prefix(&effective_pattern(&head)),
+                bad_quote: head[0] == b'"' && {
+                    // properly closed means: tokens_of_line() found the closing quote, i.e. the head ends with an
+                    // unescaped quote that is not the opening one
+                    let l = l.trim_start_with(|c| c == ' ' || c == '\t' || c == '\r');
+                    let mut i = 1;
+                    let mut closed = false;
+                    while i < l.len() {
+                        match l[i] {
+                            b'\\' => i += 1,
+                            b'"' => {
+                                closed = true;
+                                break;
+                            }
+                            _ => {}
+                        }
+                        i += 1;
+                    }
+                    !closed
+                },
             });
         }
     }
@@ -700,6 +727,9 @@ fn analyse(spec: &Spec) -> Analysis {
     }
     let reach_macro_not_set = closure(start);
     let reach_empty_name = closure(lines.iter().filter(|l| l.has_empty_name).flat_map(|l| l.names.iter().cloned()).collect());
+    // An Outcome copies macro bodies when it is created and afterwards only when the NUMBER of known names changes. It
+    // is created before the root .gitattributes and info/attributes are loaded, so macros that are defined there (for the
+    // first time or again, also with an empty body) can be missing or stale, depending on which files were loaded since.
     let mut redefined = Vec::new();
     for (i, (m, _)) in bodies.iter().enumerate() {
         if bodies.iter().skip(i + 1).any(|(o, _)| o == m) {
@@ -708,6 +738,11 @@ fn analyse(spec: &Spec) -> Analysis {
                     redefined.extend(body.iter().cloned());
                 }
             }
+        }
+    }
+    for (m, body) in &bodies {
+        if defined_in_root_or_info.contains(m) {
+            redefined.extend(body.iter().cloned());
         }
     }
     let reach_macro_redefined = closure(redefined);
@@ -721,7 +756,9 @@ fn analyse(spec: &Spec) -> Analysis {
     );
     let reach_info_vs_subdir = info.into_iter().filter(|n| subdir.contains(n)).collect();
     let reach_dstar = closure(lines.iter().filter(|l| l.dstar).flat_map(|l| l.names.iter().cloned()).collect());
+    let reach_bad_quote = closure(lines.iter().filter(|l| l.bad_quote).flat_map(|l| l.names.iter().cloned()).collect());
     Analysis {
+        reach_bad_quote,
         reach_dstar,
         reach_macro_not_set,
         reach_empty_name,
@@ -767,16 +804,19 @@ fn effective_pattern(head: &[u8]) -> Vec<u8> {
     }
 }
 
+const SIG_BAD_QUOTE: &str = "unterminated-quote-line-dropped";
 const SIG_DSTAR: &str = "doublestar-after-literal-prefix";
 const SIG_INFO: &str = "info-attributes-below-subdirectory-files";
 const SIG_MACRO_NOT_SET: &str = "macro-expanded-although-not-set";
-const SIG_MACRO_REDEF: &str = "macro-redefinition-stale";
+const SIG_MACRO_REDEF: &str = "macro-definition-not-refreshed-in-outcome";
 const SIG_EMPTY_NAME: &str = "empty-attribute-name-accepted";
 
 /// The recorded deviation class that can explain a difference in attribute `name`, if any
 fn classify(a: &Analysis, name: &str) -> Option<&'static str> {
     let n = name.as_bytes().to_vec();
-    if a.reach_dstar.contains(&n) {
+    if a.reach_bad_quote.contains(&n) {
+        Some(SIG_BAD_QUOTE)
+    } else if a.reach_dstar.contains(&n) {
         Some(SIG_DSTAR)
     } else if a.reach_info_vs_subdir.contains(&n) {
         Some(SIG_INFO)
@@ -791,20 +831,64 @@ fn classify(a: &Analysis, name: &str) -> Option<&'static str> {
     }
 }
 
+/// Triage helper for pinning known findings: `VP_PIN=<signature>` makes failures of that class carry an unknown signature
+/// (`<signature>#pin`) so that the runner shrinks them and writes a case file even though the class is listed as known.
+fn pin(sig: &str) -> String {
+    match std::env::var("VP_PIN") {
+        Ok(p) if p == sig => format!("{sig}#pin"),
+        _ => sig.to_string(),
+    }
+}
+fn pinning() -> bool {
+    std::env::var_os("VP_PIN").is_some()
+}
+
+/// `C38_PROBE=<worktree> c38 path...`: gitoxide's attributes per path (a trailing slash = directory); triage helper
+fn probe(dir: &str) {
+    let repo = gix::open_opts(dir, gix::open::Options::isolated()).expect("open");
+    let index = repo.index_or_empty().expect("index");
+    let mut stack = repo
+        .attributes_only(&index, gix::worktree::stack::state::attributes::Source::WorktreeThenIdMapping)
+        .expect("stack");
+    let mut out = stack.attribute_matches();
+    for q in std::env::args().skip(1) {
+        let platform = stack.at_entry(q.as_bytes().as_bstr(), None).expect("at_entry");
+        platform.matching_attributes(&mut out);
+        let all: Vec<String> = out.iter().map(|m| m.assignment.to_string()).collect();
+        println!("{q}\t{}", all.join(" "));
+    }
+}
+
 fn main() {
+    if let Ok(dir) = std::env::var("C38_PROBE") {
+        probe(&dir);
+        return;
+    }
     let mut ck = Check::new("C38", "exploration");
     ck.rule("Worktrees with up to 7 directories (depth <= 4) and 2..12 files (names with case variants, blanks, quotes and glob characters); attribute files at random levels (.gitattributes per directory, info/attributes, core.attributesFile) with 1..7 lines: patterns derived from existing paths (basename, relative, anchored, *affix, ** forms, one character globbed, pool), C-quoted when needed, badly quoted, negative (ignored by git), with trailing '/', case flips; 0..4 assignments per line out of 12 attribute names and 4 macro names in the forms a, -a, !a, a=v (9 values incl. empty) and odd forms (-a=v, invalid names); macro definitions ([attr]m ... incl. redefinition of 'binary', macros using macros, self reference, invalid macro names) in the places where git allows them and misplaced in sub-directories; comments, blank lines, CRLF, BOM, missing final newline; core.ignoreCase on (1/4) or off. Queries: every file, every directory as directory (and sometimes as plain path), 3..10 paths that do not exist, shuffled, on one shared stack. NON-TRIVIAL world: some answer of git comes from a macro expansion (an attribute that is only assigned inside a macro definition is specified for some path) or some attribute name is assigned in >= 2 different attribute files. Distinct by world description.");
     ck.assume(&format!("oracle: {} check-attr -z --stdin <18 names>, one call per world, empty index, GIT_ATTR_NOSYSTEM=1", Git::version()));
+    ck.assume("a non-directory path is never used as leading directory of another query on the same stack (gix_fs::Stack requires terminal paths); such paths get a stack and outcomes of their own");
+    ck.assume("disagreements that belong to a recorded deviation class (signatures in known_findings.json; decided per differing attribute: it must be reachable, through macro bodies, from the construct that defines the class) fail the world only in 1 of 4 worlds ('strict-world'); elsewhere they are tolerated and counted as 'tolerated:<signature>' labels; where the full view deviates in a recorded way the two selection views are compared with the full view instead of git; any other disagreement fails in every world");
     ck.assume("attribute values never equal the words set/unset/unspecified (check-attr output would be ambiguous); upper-case letters are not generated inside bracket expressions (wildmatch case-folding deviation recorded under C36); core.attributesFile is always configured");
 
     ck.sub("world", SubCfg::new(1000, 25_000).max_len(3000).max_shrink(60), |t, c| {
         // see C37: recorded deviation classes fail the world in 1 of 4 worlds (strict) and are tolerated and counted in the
         // others, so that the search continues behind them; anything outside these classes fails at once everywhere
         let strict = t.chance(64);
+        if pinning() && !strict {
+            // pinned tapes must fail when replayed without VP_PIN: only strict worlds may be shrunk
+            c.discard();
+            return;
+        }
         c.label(if strict { "strict-world" } else { "tolerant-world" });
+        let early_outcome = t.chance(32);
+        c.label(if early_outcome { "outcome-created-before-root-is-loaded" } else { "outcome-created-after-root-is-loaded" });
         let spec = gen_spec(t, c);
-        c.key(&spec);
-        let analysis = analyse(&spec);
+        c.key(&(&spec, early_outcome));
+        let mut analysis = analyse(&spec);
+        if !early_outcome {
+            analysis.reach_macro_redefined.clear();
+        }
         let mut deferred: Option<(&'static str, String)> = None;
         let world = infra!(c, build(&spec), "build world");
         let git = infra!(c, git_answers(&world, &spec), "git check-attr");
@@ -823,6 +907,16 @@ fn main() {
                 return;
             }
         };
+        // An Outcome that is created before the root .gitattributes and info/attributes are loaded (which happens on the first
+        // at_entry()) can miss macro definitions (recorded class macro-definition-not-refreshed-in-outcome). That call
+        // order is used in 1 of 8 worlds; in the others the root is loaded first, so that this class cannot occur and
+        // cannot be mistaken for other macro-related disagreements.
+        if !early_outcome {
+            if let Err(e) = stack.at_entry("probe-to-load-the-root".as_bytes().as_bstr(), None) {
+                c.fail(format!("at_entry() failed: {e}"));
+                return;
+            }
+        }
         let mut out_all = stack.attribute_matches();
         let mut out_sel = stack.selected_attribute_matches(spec.names.iter().copied());
         let mut out_sub = stack.selected_attribute_matches(spec.sub_selection.iter().copied());
@@ -891,6 +985,12 @@ fn main() {
                         return;
                     }
                 };
+                if !early_outcome {
+                    if let Err(e) = own_stack.at_entry("probe-to-load-the-root".as_bytes().as_bstr(), None) {
+                        c.fail(format!("at_entry() failed: {e}"));
+                        return;
+                    }
+                }
                 own_outcomes = Some((
                     own_stack.attribute_matches(),
                     own_stack.selected_attribute_matches(spec.names.iter().copied()),
@@ -975,9 +1075,10 @@ fn main() {
                 } else {
                     c.label(match sig {
                         SIG_DSTAR => "tolerated:doublestar-after-literal-prefix",
+                        SIG_BAD_QUOTE => "tolerated:unterminated-quote-line-dropped",
                         SIG_INFO => "tolerated:info-attributes-below-subdirectory-files",
                         SIG_MACRO_NOT_SET => "tolerated:macro-expanded-although-not-set",
-                        SIG_MACRO_REDEF => "tolerated:macro-redefinition-stale",
+                        SIG_MACRO_REDEF => "tolerated:macro-definition-not-refreshed-in-outcome",
                         _ => "tolerated:empty-attribute-name-accepted",
                     });
                 }
@@ -1047,7 +1148,7 @@ fn main() {
         c.nontrivial(via_macro || multi_file);
         c.sample_with(|| describe_world(&spec));
         if let Some((sig, msg)) = deferred {
-            c.fail_sig(sig, msg);
+            c.fail_sig(&pin(sig), msg);
         }
     });
     ck.finish();
